@@ -199,14 +199,16 @@ macro_rules! exec_smul_impl {
     out.insert("mul_assign".into(), proj_to_j(&q));
     out.insert("affine_mul".into(), proj_to_j(&pa.mul(k)));
     // table-driven paths with the library's own tables
-    let mut pre3 = vec![<$A>::zero(); 3];
+    // the caller's buffers are NOT fresh: they hold other points (reused tables)
+    let junk = { let mut t = <$G>::one(); t.double(); t.into_affine() };
+    let mut pre3 = vec![junk; 3];
     pa.precomp_3(&mut pre3);
     out.insert("mul_precomp_3".into(), proj_to_j(&pa.mul_precomp_3(k, &pre3)));
     out.insert(
         "pre3".into(),
         Value::Array(pre3.iter().map(|x| aff_to_j(x)).collect()),
     );
-    let mut pre256 = vec![<$A>::zero(); 256];
+    let mut pre256 = vec![junk; 256];
     pa.precomp_256(&mut pre256);
     out.insert(
         "mul_precomp_256".into(),
@@ -325,7 +327,9 @@ macro_rules! exec_msm_impl {
             );
         }
         "precomp" => {
-            let mut pre = vec![<$A>::zero(); 256 * pts.len()];
+            // a reused (non-zero) table buffer: precomp_256 must overwrite every entry
+            let junk = { let mut t = <$G>::one(); t.double(); t.into_affine() };
+            let mut pre = vec![junk; 256 * pts.len()];
             for i in 0..pts.len() {
                 pts[i].precomp_256(&mut pre[i * 256..(i + 1) * 256]);
             }
@@ -396,7 +400,8 @@ macro_rules! exec_msml_impl {
             );
         }
         "precomp" => {
-            let mut pre = vec![<$A>::zero(); 256 * pts.len()];
+            let junk = { let mut t = <$G>::one(); t.double(); t.into_affine() };
+            let mut pre = vec![junk; 256 * pts.len()];
             for i in 0..pts.len() {
                 pts[i].precomp_256(&mut pre[i * 256..(i + 1) * 256]);
             }
